@@ -1,2 +1,22 @@
--- stub: replaced by the C20 driver
-def main : IO Unit := pure ()
+/-
+  Driver.C20 — runs the C20 CodeModel (Golib.Value.Cmp) on request lines.
+
+    Q <a> <b>   →  <eqV a b as 0|1> <sign of cmpV a b as -1|0|1>
+
+  <a>, <b> are one-line values of Golib.Value.Line.
+-/
+import Golib.Value.Line
+import Golib.Value.Cmp
+import Driver.Common
+
+open Value Drv
+
+def answer (line : String) : String :=
+  match line.splitOn " " with
+  | ["Q", a, b] =>
+    match Line.readV a, Line.readV b with
+    | some a, some b => s!"{if eqV a b then 1 else 0} {sgn (cmpV a b)}"
+    | _, _ => "bad-op"
+  | _ => "bad-op"
+
+def main : IO Unit := statelessLoop answer
